@@ -274,6 +274,9 @@ def run_check(prop, tier, module_name, seed=0):
     t_start = time.time()
     hmod = importlib.import_module(module_name)
     obs = hmod.obligations(tier)
+    only = os.environ.get('VERIF_ONLY')  # developer aid: run a subset of the obligations; no evidence is written then
+    if only:
+        obs = [o for o in obs if only in o.name]
     known = load_known(prop)
     excluded = set(k['key'] for k in known)
     hit_patterns = {}
@@ -404,7 +407,7 @@ def run_check(prop, tier, module_name, seed=0):
     ev = {'property_id': prop, 'tier': tier, 'seed': seed, 'level': level, 'coverage': cov,
           'assumptions': meta.get('assumptions', []), 'wall_s': wall, 'violations': len(violations)}
     os.makedirs(os.path.join(HERE, 'evidence'), exist_ok=True)
-    with open(os.path.join(HERE, 'evidence', prop + '.json'), 'w') as f:
+    with open(os.path.join(HERE, 'evidence', prop + ('.partial' if only else '') + '.json'), 'w') as f:
         json.dump(ev, f, indent=1, default=repr)
 
     for k, pat, why in known_hits:
